@@ -54,7 +54,7 @@ def showE (r : Except Err Pt) : String :=
 /-- `k` from `-2n` to `2n` -/
 def kRange (n : Nat) : List Int := (List.range (4 * n + 1)).map fun (i : Nat) => (i : Int) - 2 * (n : Int)
 
-def handle : Handler := fun op args =>
+def handleCore : Handler := fun op args =>
   match op, args with
   -- operands are built with `generator.Point(x, y)`, which raises NoSuchPointError off the curve
   | "ec_add", [c, P, Q] => do
@@ -182,5 +182,12 @@ def handle : Handler := fun op args =>
     let c ← parseCurve? c
     some (showRes (fun _ => "1") (generatorInit c (Pycoin.fmod (← parseInt? b) c.n)))
   | _, _ => none
+
+/-- `failed_then <op> <args…>`: the harness first makes calls on the same generator object that the library refuses (a scalar
+that is not an integer), then evaluates `<op>`; a refused call changes nothing, so the model's answer is that of `<op>` alone -/
+def handle : Handler := fun op args =>
+  match op, args with
+  | "failed_then", op' :: args' => handleCore op' args'
+  | _, _ => handleCore op args
 
 end Pycoin.Driver.C02
